@@ -10,7 +10,7 @@ from . import lang
 SAFE_COLUMNS = ["name", "ext", "path", "dir", "size", "fsize", "uid", "gid", "modified", "is_dir", "is_file",
                 "is_symlink", "is_hidden", "mode", "hardlinks", "user_read", "other_exec", "is_empty",
                 "line_count", "is_shebang", "is_source", "is_archive", "abspath", "absdir", "inode", "blocks",
-                "sha1", "mime", "is_text", "has_xattrs", "caps", "accessed", "user", "group", "suid"]
+                "sha1", "mime", "is_text", "has_xattrs", "caps", "user", "group", "suid"]
 
 COLUMN_EXPRS = [
     ["length", "(", "name", ")"], ["upper", "(", "name", ")"], ["lower", "(", "ext", ")"],
